@@ -13,8 +13,15 @@ C08 (the part which lives in the scheduler's raptor routing): RaptorCache model
 of the tasks kept for a raptor master which has not registered yet - cancel
 requests over the cache, relay at registration - checked exhaustively, its
 behaviours and an enumeration of cancel requests replayed into the real
-control_cb / _schedule_incoming, clauses C08.*.  The module serves both
-properties; only clauses whose prefix equals chk.pid are reported.
+control_cb / _schedule_incoming, clauses C08.*.
+
+C05 (raptor share): the outcome-truth clauses only, on a cheap subset (result
+matrix through the real Master._result_cb, start failures, MPI refusals, some
+random request streams), reported as C05.RaptorTargetTruth /
+C05.RaptorTargetFromExit.
+
+The module serves the three properties; only clauses whose prefix equals
+chk.pid are reported.
 '''
 
 import os
@@ -35,7 +42,7 @@ CONSTANTS = 'NCores = %d\n NGpus = %d\n' % (NCORES, NGPUS)
 INVARIANTS = ['TypeOK', 'InvNoShare', 'InvDemandMet', 'InvOccMatches', 'InvAllBack',
               'InvResultOnce', 'InvTarget', 'InvTruth', 'InvRouting', 'InvRestored']
 DEVS = ['DevNoDeallocOnSpawnFail', 'DevAllocIgnoresBusy', 'DevPutOutsideLock',
-        'DevDupKillsWatcher', 'DevNoSynthWithoutTimeout', 'DevTargetIgnoresMissing', 'DevNoSeen', 'DevEnvLeak']
+        'DevDupKillsWatcher', 'DevNoSynthWithoutTimeout', 'DevStartOutsideLock', 'DevTargetIgnoresMissing', 'DevNoSeen', 'DevEnvLeak']
 
 Q = R.req
 
@@ -169,7 +176,8 @@ def random_mpi(rng, sig, sendfail=False):
             rk[j], rk[(j + 1) % n] = 'sig', 'ok'
         if not sig and not sendfail and rng.random() < 0.15:
             n, rk = NRANKS + rng.randint(1, 2), None
-        reqs['r%d' % (i + 1)] = R.mpi_req(n, mode, rk)
+        reqs['r%d' % (i + 1)] = R.mpi_req(n, mode, rk, envt=rng.choice(['none', 'tenv', 'probe'])
+                                          if mode == 'shell' else 'none')
     if sendfail:
         u = rng.choice(sorted(reqs))
         reqs[u]['pf'] = rng.randrange(reqs[u]['c'])
@@ -181,13 +189,37 @@ MICRO = ('CRun', 'CLock', 'CPut', 'CSet', 'PJoin', 'PLock', 'PCheck', 'PKill', '
 _ACT = re.compile(r'^\\\* <(\w+)(?:\((.*)\))? line \d+', re.M)
 
 
-def scripts_from_behaviour(path):
-    '''(worker script, scheduler script) of one TLC behaviour'''
+def scripts_from_behaviour(path, race=False):
+    '''(worker script, scheduler script) of one TLC behaviour.
+       race: a request whose dispatch process does something between StartProc and
+       RegisterPid is replayed as one ('race', uid, schedule) operation: schedule
+       over Q (_request_cb), W (result thread), P / C (dispatch pair)'''
     txt = open(path).read()
     ws, ss, nin, steps = [], [], {}, {}
-    for m in _ACT.finditer(txt):
-        name, args = m.group(1), m.group(2) or ''
+    acts = [(m.group(1), m.group(2) or '') for m in _ACT.finditer(txt)]
+    racing = {}
+    if race:
+        open_ = None
+        for name, args in acts:
+            ids = re.findall(r'"(\w+)"', args)
+            if name == 'StartProc':
+                open_ = ids[0]
+            elif name == 'RegisterPid':
+                open_ = None
+            elif open_ and ids and ids[0] == open_ and \
+                    name in MICRO + ('Finish', 'PStart', 'Deliver'):
+                racing[open_] = ['W', 'Q']
+    for name, args in acts:
         ids  = re.findall(r'"(\w+)"', args)
+        u    = ids[0] if ids else None
+        if u in racing and name in MICRO + ('Take', 'StartProc', 'RegisterPid', 'Finish',
+                                             'PStart', 'Deliver'):
+            if   name == 'Take'    : ws.append(('race', u, racing[u]))
+            elif name in ('StartProc', 'RegisterPid'): racing[u].append('Q')
+            elif name == 'Finish'  : racing[u] += list('PCCCCPPP')
+            elif name == 'Deliver' : racing[u] += list('WWW')
+            else                   : racing[u].append(name[0])
+            continue
         if   name == 'Dispatch' : ws.append(('dispatch', ids[0]))
         elif name == 'Take'     : ws.append(('take', ids[0]))
         elif name == 'Finish'   : ws.append(('finish', ids[0], 'nat'))
@@ -203,9 +235,12 @@ def scripts_from_behaviour(path):
             ss.append(('arrive', [ids[0] if nin[ids[0]] == 1 else ids[0] + 'S']))
         elif name == 'Register'  : ss.append(('register', R.MASTER_UID))
         elif name == 'Unregister': ss.append(('unregister', R.MASTER_UID))
-    ws = [(o[0], o[1], 'P' + ''.join(o[2])) if o[0] == 'finish' and isinstance(o[2], list) else o
-          for o in ws]
-    return ws, ss
+    out = []
+    for o in ws:
+        if o[0] == 'finish' and isinstance(o[2], list): o = (o[0], o[1], 'P' + ''.join(o[2]))
+        if o[0] == 'race': o = (o[0], o[1], ''.join(o[2]))
+        out.append(o)
+    return out, ss
 
 
 def sched_info(reqs):
@@ -417,7 +452,7 @@ def run_input(inp):
     raise ValueError(k)
 
 
-def validate(chk, traces, inputs, what):
+def validate(chk, traces, inputs, what, rename=None):
     res, st = tracecheck.validate('Raptor', 'RaptorTrace', CONSTANTS, traces)
     chk.states += st['states']
     chk.transitions += st['transitions']
@@ -430,6 +465,7 @@ def validate(chk, traces, inputs, what):
             chk.nontrivial.add(hash(tuple(
                 e['ev'] + ':' + str(e.get('uid', '')) + str(e.get('o', '')) for e in tr['events'])))
         for err in errs:
+            err = (rename or {}).get(err, err)
             if err.split('.')[0] != chk.pid:
                 if err.startswith('X.'):
                     raise Machinery('trace monitor met an unknown event: %s' % evs)
@@ -462,7 +498,90 @@ def explore_dispatch(add):
     return found
 
 
+RACE_REQS = {'r1': Q(2, 1, 'func', 'ret'), 'r2': Q(1, 1, 'eval', 'ret')}
+RACE_HEAD = [('dispatch', 'r1'), ('dispatch', 'r2')]
+
+
+def explore_start(add, bound):
+    '''interleavings (up to `bound` preemptions; None: all) of the real _request_cb,
+       the real result thread and the dispatch pair of a very short request'''
+    n = [0]
+
+    def make_run(ch):
+        rig = R.RaptorRig(RACE_REQS, script=RACE_HEAD + [('race', 'r1', ch)],
+                          ncores=NCORES, ngpus=NGPUS)
+        return None, rig.run()
+    for tr in SC.explore(make_run, max_runs=20000, preempt_bound=bound):
+        fin = [e for e in tr['events'] if e['ev'] == 'Fin' and e['uid'] == 'r1'][0]
+        n[0] += 1
+        add({'family': 'base', 'kind': 'script', 'scenario': 'explore-start', 'reqs': RACE_REQS,
+             'script': RACE_HEAD + [('race', 'r1', fin['o'])]}, tr)
+    return n[0]
+
+
+def c05_inputs(rng):
+    '''what a worker may send back x what the master makes of it; requests whose
+       process cannot be started; MPI requests which cannot be placed'''
+    out = []
+    combos = [(ec, exc, ab) for ec in ('none', 0, 1, 3, -9) for exc in (False, True)
+              for ab in ((False, True) if ec == 'none' else (False,))]
+    reqs = {'r%d' % (i + 1): Q(1, 0, rng.choice(R.PY_MODES + R.PROC_MODES), 'ret')
+            for i in range(len(combos))}
+    script = []
+    for i, (ec, exc, ab) in enumerate(combos):
+        script += [('dispatch', 'r%d' % (i + 1)), ('inject', 'r%d' % (i + 1), ec, exc, ab)]
+    out.append({'family': 'base', 'kind': 'script', 'scenario': 'fixed-master', 'reqs': reqs,
+                'script': script})
+    for mode in R.PY_MODES + R.PROC_MODES:
+        out.append({'family': 'base', 'kind': 'script', 'scenario': 'fixed-nofork',
+                    'reqs': {'r1': Q(2, 1, mode, 'ret', sf=1), 'r2': Q(3, 2, 'func', 'ret')},
+                    'script': [('dispatch', 'r1'), ('dispatch', 'r2'), ('take', 'r1'), ('take', 'r2')]})
+    out.append({'family': 'mpi', 'kind': 'mpi-script', 'scenario': 'fixed-refuse',
+                'reqs': {'r1': R.mpi_req(NRANKS + 1, 'func'), 'r2': R.mpi_req(NRANKS, 'eval')},
+                'script': [('submit', 'r1'), ('submit', 'r2')]})
+    for pf in (0, 1):
+        out.append({'family': 'mpi-sendfail', 'kind': 'mpi-script', 'scenario': 'fixed-sendfail',
+                    'reqs': {'r1': R.mpi_req(2, 'func', pf=pf), 'r2': R.mpi_req(NRANKS, 'eval')},
+                    'script': [('submit', 'r1'), ('submit', 'r2')]})
+    return out
+
+
+C05_RENAME = {'C20.TargetTruth': 'C05.RaptorTargetTruth',
+              'C20.TargetFromExit': 'C05.RaptorTargetFromExit'}
+
+
+def run_c05(chk, tier, seed):
+    '''the raptor share of C05 (the final state tells the truth): the target state
+       the master derives for a request, against what the workers reported and
+       what really happened to it'''
+    rng = random.Random(seed * 7919 + 5)
+    traces, inputs = [], []
+    for inp in c05_inputs(rng):
+        traces.append(run_input(inp))
+        inputs.append(inp)
+    for i in range(40 if tier == 'quick' else 800):
+        inp = {'family': 'base', 'kind': 'random', 'seed': rng.randrange(10 ** 9),
+               'reqs': random_reqs(rng, rng.randint(2, 5), 'base')}
+        traces.append(run_input(inp))
+        inputs.append(inp)
+    for i in range(15 if tier == 'quick' else 300):
+        inp = {'family': 'mpi', 'kind': 'mpi-random', 'seed': rng.randrange(10 ** 9),
+               'reqs': random_mpi(rng, False)}
+        traces.append(run_input(inp))
+        inputs.append(inp)
+    validate(chk, traces, inputs, 'real raptor trace', rename=C05_RENAME)
+    chk.sample({'kind': 'inject matrix', 'events': [
+        {k: v for k, v in e.items() if k not in ('cores', 'gpus', 'npool')}
+        for e in traces[0]['events'] if e['ev'] in ('Inject', 'MResult')][:12]})
+    chk.assumptions += [
+        'only the raptor share of C05 is judged here: Master._result_cb deriving the target '
+        'state of a request from what the (default / MPI) worker sent back; the design model is '
+        'checked under C20 (InvTarget, InvTruth of Raptor / RaptorMPI)']
+
+
 def run(chk, tier, seed):
+    if chk.pid == 'C05':
+        return run_c05(chk, tier, seed)
     if chk.pid == 'C08':
         return run_c08(chk, tier, seed)
     rng   = random.Random(seed * 7919 + 20)
@@ -496,6 +615,7 @@ def run(chk, tier, seed):
                   (['DevPutOutsideLock', 'DevDupKillsWatcher'], SCENARIOS[0][1],
                    ('deadlock', 'InvTruth')),
                   (['DevNoSynthWithoutTimeout'], SCENARIOS[2][1], ('deadlock',)),
+                  (['DevStartOutsideLock'], SCENARIOS[2][1], ('deadlock', 'InvAllBack')),
                   (['DevTargetIgnoresMissing'], SCENARIOS[0][1], ('InvTarget', 'InvTruth')),
                   (['DevNoSeen'], SCENARIOS[0][1], ('InvRouting',)),
                   (['DevEnvLeak'], SCENARIOS[1][1], ('InvRestored',))]
@@ -535,18 +655,27 @@ def run(chk, tier, seed):
             ([SCENARIOS[0], rng.choice(SCENARIOS[1:])] if quick else SCENARIOS)]
     for i in range(0 if quick else 6):
         plan.append(('base', 'rand%d' % i, random_reqs(rng, 4, 'base')))
+    # schedules in which the result thread meets a request whose pid is not
+    # registered yet come from the model with DevStartOutsideLock (the real code
+    # takes the steps it can take)
+    for name, reqs in ([SCENARIOS[2]] if quick else SCENARIOS):
+        plan.append(('race', name, reqs))
     for fam, name, reqs in plan:
         dump = tlc.scratch('rpsim_')
         try:
             res = tlc.run('Raptor', 'MC', 'MC.cfg', workers=1, timeout=300,
                           simulate='num=%d' % nsim, depth=120, seed=rng.randrange(10 ** 6),
-                          dump_dir=dump, extra_files=mc_files(reqs, invariants=['TypeOK']))
+                          dump_dir=dump,
+                          extra_files=mc_files(reqs, invariants=['TypeOK'],
+                                               devs=['DevStartOutsideLock'] if fam == 'race' else []))
             chk.add_tlc(res, 'simulate:%s:%s' % (fam, name))
             info = sched_info(reqs)
             for f in sorted(glob.glob(os.path.join(dump, 'tr_*'))):
-                ws, ss = scripts_from_behaviour(f)
-                add({'family': fam, 'kind': 'script', 'scenario': name, 'reqs': reqs,
+                ws, ss = scripts_from_behaviour(f, race=fam == 'race')
+                add({'family': 'base', 'kind': 'script', 'scenario': name, 'reqs': reqs,
                      'script': ws})
+                if fam == 'race':
+                    continue
                 add({'family': 'sched', 'kind': 'sched-script', 'scenario': name,
                      'info': info, 'script': ss})
         finally:
@@ -573,6 +702,9 @@ def run(chk, tier, seed):
     scheds = explore_dispatch(add)
     chk.notes.append('dispatch parent/child: %d interleavings explored on the real code'
                      % len(scheds))
+    n = explore_start(add, 1 if quick else 3)
+    chk.notes.append('request start / result thread: %d interleavings (preemption bound %d) '
+                     'explored on the real code' % (n, 1 if quick else 3))
 
     # ---- 5. seeded random schedules, fixed schedules ---------------------------------
     # a rank killed by a signal (the other rank succeeds), both arrival orders
@@ -589,34 +721,24 @@ def run(chk, tier, seed):
                  'reqs': {'r1': Q(3, 2, mode, 'die', tmo=tmo), 'r2': Q(2, 1, 'eval', 'ret')},
                  'script': [('dispatch', 'r1'), ('dispatch', 'r2'), ('take', 'r1'), ('take', 'r2'),
                             ('finish', 'r1', 'nat')]})
-    # what a worker may send back x what the master makes of it: exit code not
-    # set / absent / 0 / positive / negative, with and without an exception
-    combos = [(ec, exc, ab) for ec in ('none', 0, 1, 3, -9) for exc in (False, True)
-              for ab in ((False, True) if ec == 'none' else (False,))]
-    reqs = {'r%d' % (i + 1): Q(1, 0, rng.choice(R.PY_MODES + R.PROC_MODES), 'ret')
-            for i in range(len(combos))}
-    script = []
-    for i, (ec, exc, ab) in enumerate(combos):
-        script += [('dispatch', 'r%d' % (i + 1)), ('inject', 'r%d' % (i + 1), ec, exc, ab)]
-    add({'family': 'base', 'kind': 'script', 'scenario': 'fixed-master', 'reqs': reqs,
-         'script': script})
-    # the process of a request cannot be started (all modes)
-    for mode in R.PY_MODES + R.PROC_MODES:
-        add({'family': 'base', 'kind': 'script', 'scenario': 'fixed-nofork',
-             'reqs': {'r1': Q(2, 1, mode, 'ret', sf=1), 'r2': Q(3, 2, 'func', 'ret')},
-             'script': [('dispatch', 'r1'), ('dispatch', 'r2'), ('take', 'r1'), ('take', 'r2')]})
-    # MPI worker: more ranks asked for than there are; a send which fails
-    add({'family': 'mpi', 'kind': 'mpi-script', 'scenario': 'fixed-refuse',
-         'reqs': {'r1': R.mpi_req(NRANKS + 1, 'func'), 'r2': R.mpi_req(NRANKS, 'eval')},
-         'script': [('submit', 'r1'), ('submit', 'r2')]})
-    for pf in (0, 1):
-        add({'family': 'mpi-sendfail', 'kind': 'mpi-script', 'scenario': 'fixed-sendfail',
-             'reqs': {'r1': R.mpi_req(2, 'func', pf=pf), 'r2': R.mpi_req(NRANKS, 'eval')},
-             'script': [('submit', 'r1'), ('submit', 'r2')]})
-    for i in range(150 if quick else 2000):
+    # outcome truth at the master: result matrix, start failures, MPI refusals
+    for inp in c05_inputs(rng):
+        add(inp)
+    # a rank serves many requests in one process: what a request brings in its
+    # environment is gone before the next one runs (shell on the MPI worker; the
+    # dispatchers alone for proc and shell)
+    add({'family': 'mpi', 'kind': 'mpi-script', 'scenario': 'fixed-env',
+         'reqs': {'r1': R.mpi_req(2, 'shell', envt='tenv'), 'r2': R.mpi_req(NRANKS, 'shell', envt='probe'),
+                  'r3': R.mpi_req(1, 'shell', ['raise'], envt='tenv'), 'r4': R.mpi_req(2, 'shell', envt='probe')},
+         'script': [('submit', 'r1'), ('submit', 'r2'), ('submit', 'r3'), ('submit', 'r4')]})
+    for seq in ([('shell', 'tenv'), ('shell', 'probe'), ('proc', 'tenv'), ('proc', 'probe')],
+                [('proc', 'tenv'), ('shell', 'probe'), ('shell', 'tenv'), ('proc', 'probe'),
+                 ('proc', 'ret'), ('shell', 'probe')]):
+        add({'family': 'base', 'kind': 'chain', 'calls': seq})
+    for i in range(110 if quick else 2000):
         add({'family': 'base', 'kind': 'random', 'seed': rng.randrange(10 ** 9),
              'reqs': random_reqs(rng, rng.randint(2, 6), 'base')})
-    for i in range(80 if quick else 1000):
+    for i in range(60 if quick else 1000):
         add({'family': 'sched', 'kind': 'sched-random', 'seed': rng.randrange(10 ** 9),
              'info': random_sched(rng), 'p_env': rng.choice([0.2, 0.35, 0.5]),
              'max_cancel': rng.choice([0, 0, 1])})
@@ -667,4 +789,5 @@ def run(chk, tier, seed):
 def replay(chk, obj):
     inp = obj['input']
     tr  = run_input(inp)
-    validate(chk, [tr], [inp], 'replayed raptor trace')
+    validate(chk, [tr], [inp], 'replayed raptor trace',
+             rename=C05_RENAME if chk.pid == 'C05' else None)
